@@ -224,6 +224,10 @@ def match_known(known, tree, row, nat, ref):
             # the memchr arm [s1, s2, ""]: only position may differ, and only in programs with such a skip_until
             if re.search(r"\(skip_until [0-9a-f]+ [0-9a-f]+ -\)", tree):
                 return e
+        if role == "tag_on_pairless_expression":
+            # only the frame condition on node tags is affected, and only in programs that tag an expression
+            if "(tag " in tree and row.get("atomicity") and all(a[0] == "failed sequence left a node tag on an earlier pair" for a in row["atomicity"]) and all(ref[k] == nat[k] for k in CMP_KEYS if k in ref and k in nat):
+                return e
     return None
 
 
